@@ -135,10 +135,10 @@ theorem count_erase_self' {l : List Cb} {c : Cb} (h : c ∈ l) : (l.erase c).cou
   have : 0 < l.count c := List.count_pos_iff.mpr h
   simp [List.count_erase_self]; omega
 
-theorem readyNext_pos {o : Obs} {x : Word} (h : x ≠ .list [] ∧ o.todo.head? = some .readyTouch) :
+theorem readyNext_pos {o : Obs} {x : Word} (h : x = .result ∧ o.todo.head? = some .readyTouch) :
     readyNext o x = { o with pc := .touching } := by simp only [readyNext, if_pos h]
 
-theorem readyNext_neg {o : Obs} {x : Word} (h : ¬ (x ≠ .list [] ∧ o.todo.head? = some .readyTouch)) :
+theorem readyNext_neg {o : Obs} {x : Word} (h : ¬ (x = .result ∧ o.todo.head? = some .readyTouch)) :
     readyNext o x = nextOp o := by simp only [readyNext, if_neg h]
 
 theorem staleOk_self (l : List Cb) : staleOk l l := by simp [staleOk]
@@ -234,6 +234,9 @@ structure InvA (w : Workload) (s : State) : Prop where
   got_val : ∀ x ∈ s.got, x.2.1 = some w.prod.res
   getc_val : ∀ x ∈ s.getcObs, x.2 = some w.prod.res
   ready_obs : ∀ x ∈ s.readyObs, x.1 = .result → x.2 = true
+  /-- `Touch()` after `Ready() == true` happens only once the result is there, and reads it -/
+  touching_after : ∀ t, (s.obs t).pc = .touching → s.fpc ≠ .start
+  touch_val : ∀ x ∈ s.touchObs, x = some w.prod.res
   att_head : ∀ t c e, (s.obs t).pc = .att c e → (s.obs t).todo.head?.bind opKind = some c.kind
   evt_head : ∀ t c, (s.obs t).pc = .evt c → (s.obs t).todo.head?.bind opKind = some .event
 
